@@ -363,6 +363,16 @@ def math_noninteger_instance(case: dict, failure: dict) -> bool:
                 is_int = arg.ast_type == ASTType.SymbolicTerm and arg.symbol.type.name == "Number"
                 is_neg = arg.ast_type == ASTType.UnaryOperation and arg.argument.ast_type == ASTType.SymbolicTerm and arg.argument.symbol.type.name == "Number"
                 if not (is_int or is_neg):
+                    pb, pa = _prg(_before(case, failure)), _prg(_after(case, failure))
+                    if len(pb) == len(pa):  # math rewrites statement by statement: judge each statement on its own
+                        for sb, sa in zip(pb, pa):
+                            if sb.ast_type not in (ASTType.Rule, ASTType.Minimize) or str(sb) == str(sa):
+                                continue
+                            gone = {str(b) for b in sb.body if b.ast_type == ASTType.Literal and b.atom.ast_type in (ASTType.Comparison, ASTType.BodyAggregate)}
+                            gone -= {str(b) for b in getattr(sa, "body", [])}
+                            if gone:
+                                return True
+                        return False
                     before = {str(b) for b in _body_lits(_before(case, failure)) if b.ast_type == ASTType.Literal and b.atom.ast_type in (ASTType.Comparison, ASTType.BodyAggregate)}
                     after = {str(b) for b in _body_lits(_after(case, failure))}
                     return bool(before - after)
